@@ -10,6 +10,7 @@ from .._change import Replace
 from .._sentinels import undefined
 from .._unmanaged import Unmanaged
 from .._unmanaged import map_unmanaged
+from .._utils import normalize
 from .._utils import value_to_token
 from .generic_value import GenericValue
 
@@ -100,7 +101,8 @@ class UndecidedValue(GenericValue):
                 and not isinstance(node, ast.JoinedStr)
             ):
                 new_token = value_to_token(obj)
-                if self._file._token_of_node(node) != new_token:
+                # the tokens of the node are normalized (trailing commas like in `(1,)`)
+                if self._file._token_of_node(node) != list(normalize(new_token)):
                     new_code = self._file._token_to_code(new_token)
 
                     yield Replace(
